@@ -4,7 +4,7 @@ EXPLANATION = ("Contracts on the share-or-copy decision: the Generation algebra 
                "test on a real one-object heap.")
 TRUSTED = []
 ASSUMPTIONS = [
-    "thread tree axiom (env.rs axiom_thread_tree): a child thread is one level deeper, one generation younger and shares the global state of its parent -- Thread::new_thread itself is not verified (new_child_gc's generation step is)",
+    "thread tree axiom (env.rs axiom_thread_tree): a child thread is one level deeper, one generation younger and shares the global state of its parent -- still an axiom of the clone unit, but its construction step is now an obligation of its own (C13/thread/new_thread_construct, on the struct literal of Thread::new_thread, with new_child_gc's proved contract); the induction from the step to the whole tree, and that nothing re-parents a thread later, stay assumed",
     "clone unit: deep_clone_str/data/closure/app, the element loop deep_clone_elems, the allocation closure passed to deep_clone_ptr, and hash-map lookups/inserts of the visited map (modelled as a ghost map; Entry API desugared), gc.alloc(Move(ExternFunction::clone)) and Userdata::deep_clone are ASSUMED to return new objects of the receiving heap (fresh); the visited map is opaque",
     "Gc::get_type_info replaced by a non-interning stub in the coherence harness (hash maps are intractable for CBMC)",
     "termination is not proved by Kani",
@@ -52,6 +52,8 @@ def obligations(tier):
         v("lemma_ancestor_is_older", "an ancestor thread's generation is strictly smaller (induction over the parent chain)", "lemma over the thread-tree axiom"),
         dict(engine="verus", unit="reference", function="Reference::deep_clone", name="C13/reference/Reference_deep_clone", source="vm/src/reference.rs::<Reference as Userdata>::deep_clone",
              clause="a reference crossing heaps becomes a reference owned by the RECEIVING thread holding a copy of the content"),
+        dict(engine="verus", unit="newthread", function="Thread::new_thread::construct", name="C13/thread/new_thread_construct", source="vm/src/thread.rs::Thread::new_thread (up to the allocation of the new thread)",
+             clause="construction step of the thread tree assumed by the clone unit: a spawned thread's parent pointer is its spawner, it shares the spawner's global state, and its collector is exactly one generation younger"),
         # transfer sites: the value stored is the copy deep_clone_value made for the thread that OWNS the channel / cell / lazy value
         dict(engine="verus", unit="channel", function="send", name="C13/channel/send", source="vm/src/channel.rs::send",
              clause="transfer site: what is queued is the copy made for the channel's own thread (holdable_by), never the sender's pointer"),
